@@ -44,11 +44,11 @@ Definition str := string.
 Definition mem (p : str) (l : list str) : bool := existsb (String.eqb p) l.
 Definition subset (l1 l2 : list str) : bool := forallb (fun p => mem p l2) l1.
 
-(* webclient.go remove / addnew *)
+(* webclient.go remove (every occurrence, since b21f80e) / addnew *)
 Fixpoint remove (v : str) (l : list str) : list str :=
   match l with
   | [] => []
-  | w :: r => if String.eqb v w then r else w :: remove v r
+  | w :: r => if String.eqb v w then remove v r else w :: remove v r
   end.
 Definition addnew (v : str) (l : list str) : list str :=
   if mem v l then l else app l [v].
